@@ -256,3 +256,41 @@ Check Known_list_remainder_refuted :
    known_db t = true /\ spec_load t = VErr /\ (exists d, load t = Some d /\ db_classes d = [bs "win"])) /\
   (let t := bs "[tcp:request]x]" in known_db t = true /\ spec_load t = VErr /\ (exists d, load t = Some d)).
 Print Assumptions Known_list_remainder_refuted.
+
+(* open finding C06-unknown-item-skipped: an unknown module header / a key the module does not have is skipped
+   (with everything it governs) and Ok is returned; the specification rejects the text.  Third clause: the
+   correctly spelt text is outside the class and both sides agree on it. *)
+Theorem Known_unknown_item_refuted :
+  (let t := bs "[tcp:reqeust]
+label = s:unix:Linux:
+sig = *:64:0:*:*,*:::0" in
+   known_unknown_item t = true /\ known_db t = true /\ spec_load t = VErr /\
+   (exists d, load t = Some d /\ table_counts (db_tcp_request d) = (0, 0)%nat)) /\
+  (let t := bs "[tcp:request]
+label = s:unix:Linux:
+sgi = *:64:0:*:*,*:::0" in
+   known_unknown_item t = true /\ known_db t = true /\ spec_load t = VErr /\
+   (exists d, load t = Some d /\ table_counts (db_tcp_request d) = (1, 0)%nat)) /\
+  (let t := bs "[tcp:request]
+label = s:unix:Linux:
+sig = *:64:0:*:*,*:::0" in
+   known_db t = false /\
+   (exists d, spec_load t = VOk d /\ load t = Some d /\ table_counts (db_tcp_request d) = (1, 1)%nat)).
+Proof. split; [exact known_unknown_module_refuted | split; [exact known_unknown_key_refuted | exact unknown_item_contrast]]. Qed.
+Check Known_unknown_item_refuted :
+  (let t := bs "[tcp:reqeust]
+label = s:unix:Linux:
+sig = *:64:0:*:*,*:::0" in
+   known_unknown_item t = true /\ known_db t = true /\ spec_load t = VErr /\
+   (exists d, load t = Some d /\ table_counts (db_tcp_request d) = (0, 0)%nat)) /\
+  (let t := bs "[tcp:request]
+label = s:unix:Linux:
+sgi = *:64:0:*:*,*:::0" in
+   known_unknown_item t = true /\ known_db t = true /\ spec_load t = VErr /\
+   (exists d, load t = Some d /\ table_counts (db_tcp_request d) = (1, 0)%nat)) /\
+  (let t := bs "[tcp:request]
+label = s:unix:Linux:
+sig = *:64:0:*:*,*:::0" in
+   known_db t = false /\
+   (exists d, spec_load t = VOk d /\ load t = Some d /\ table_counts (db_tcp_request d) = (1, 1)%nat)).
+Print Assumptions Known_unknown_item_refuted.
